@@ -95,4 +95,12 @@ ModelDiff(a, b) ==
       f(k) == IF k \notin DOMAIN b THEN Out("rem", k, a[k], 0)
               ELSE IF k \notin DOMAIN a THEN Out("add", k, 0, b[k]) ELSE Out("chg", k, a[k], b[k])
   IN SelectSeq([i \in 1..Len(ks) |-> f(ks[i])], LAMBDA e: e[1] # "chg" \/ e[3] # e[4])
+
+\* helpers for recorded runs: pair lists to maps, the numeric encoding of entry kinds (1 add, 2 rem, 3 chg)
+TakeD(sq, n) == SubSeq(sq, 1, IF n > Len(sq) THEN Len(sq) ELSE n)
+ToMap(ps) == [k \in {ps[i][1] : i \in DOMAIN ps} |-> (CHOOSE i \in DOMAIN ps : ps[i][1] = k) ]
+MapOf(ps) == LET idx == ToMap(ps) IN [k \in DOMAIN idx |-> ps[idx[k]][2]]
+KindNo(s) == IF s = "add" THEN 1 ELSE IF s = "rem" THEN 2 ELSE 3
+Num(seq) == [i \in DOMAIN seq |-> <<KindNo(seq[i][1]), seq[i][2], seq[i][3], seq[i][4]>>]
+
 =============================================================================
